@@ -8,6 +8,7 @@ type vc10Cue struct {
 	text   string
 	style  *Style
 	region *Region
+	inline *StyleAttributes
 }
 
 func vc10Build(n int, overlapFree bool) (*Subtitles, []vc10Cue) {
@@ -28,9 +29,11 @@ func vc10Build(n int, overlapFree bool) (*Subtitles, []vc10Cue) {
 		text := []string{"a", "b"}[choose(2)]
 		sty := &Style{ID: "s"}
 		reg := &Region{ID: "r"}
-		it := &Item{StartAt: time.Duration(st), EndAt: time.Duration(en), Lines: []Line{{Items: []LineItem{{Text: text}}}}, Style: sty, Region: reg}
+		inl := &StyleAttributes{WebVTTAlign: "left"}
+		it := &Item{StartAt: time.Duration(st), EndAt: time.Duration(en), Lines: []Line{{VoiceName: "v", Items: []LineItem{{Text: text}}}}, Style: sty, Region: reg, InlineStyle: inl,
+			Comments: []string{"c"}, Index: i + 1}
 		s.Items = append(s.Items, it)
-		in = append(in, vc10Cue{it, st, en, text, sty, reg})
+		in = append(in, vc10Cue{it, st, en, text, sty, reg, inl})
 	}
 	return s, in
 }
@@ -69,6 +72,7 @@ func vc10Check(s *Subtitles, in []vc10Cue, f int64, K int, tag string) {
 			vassert(j+1 < len(bounds), tag+": no extra piece")
 			vassert(int64(it.StartAt) == bounds[j] && int64(it.EndAt) == bounds[j+1], tag+": pieces are the consecutive cuts of the original")
 			vassert(it.Region == c.region && len(it.Lines) == 1 && len(it.Lines[0].Items) == 1 && it.Lines[0].Items[0].Text == c.text, tag+": piece carries text, style and region")
+			vassert(it.InlineStyle == c.inline && it.Lines[0].VoiceName == "v" && len(it.Comments) == 1 && it.Index == c.p.Index, tag+": piece carries the cue's inline style, voice, comments and index")
 			if len(cuts) == 0 {
 				vassert(it == c.p, tag+": uncut cue left as it was")
 			}
